@@ -454,7 +454,7 @@ func fullAssignment(g *gen.G, it *ref.Item) map[string]ref.Val {
 }
 
 func runC18(c *ctx) {
-	c.Rule = "messages in every completeness state (wait bit false/true/optional x session set/unset x item with/without variables / no item) x every sequence of up to 3 producers (3+9+27 orders) with accepted and rejected arguments (W=true on an even function, session -2/65536, system bytes of length 0..8, a fill value no factory accepts, ASCII fills outside their bounds, unknown keys); after every producer every observable field is compared with a model that changes only the named field, the receiver is re-read, and refusal must coincide with the validity rules. non-trivial = the sequence changes something or is refused; distinct by (message, sequence) Also (rounds 6-8): ellipsis counts and generated names in one call through messages in every completeness state, then the same map object on a sibling; partial expansions must leave '...[0]','...[1]',..; fills that bring names in are refused or leave every name once; fills at the item size limit; fills at the bottom of nests 1..80, 200, 1000 deep."
+	c.Rule = "messages in every completeness state (wait bit false/true/optional x session set/unset x item with/without variables / no item) x every sequence of up to 3 producers (3+9+27 orders) with accepted and rejected arguments (W=true on an even function, session -2/65536, system bytes of length 0..8, a fill value no factory accepts, ASCII fills outside their bounds, unknown keys); after every producer every observable field is compared with a model that changes only the named field, the receiver is re-read, and refusal must coincide with the validity rules. non-trivial = the sequence changes something or is refused; distinct by (message, sequence) Also (rounds 6-8): ellipsis counts and generated names in one call through messages in every completeness state, then the same map object on a sibling; partial expansions must leave '...[0]','...[1]',..; fills that bring names in are refused or leave every name once; fills at the item size limit; fills at the bottom of nests 1..80, 200, 1000 deep. Also (round 10): half of the out-of-domain fill values are nil."
 	c.Assume = []string{"model of the three producers in this file, written from the property statement"}
 	kinds := []string{"wait", "session", "fill"}
 	var seqs [][]string
